@@ -123,6 +123,7 @@ func (c20) Case(c *core.Ctx) {
 	r := c.R
 	defer ResetDefaults()
 	mxj.XMLEscapeChars(true)
+	failedCalls(c, 8)
 	doc := xt.Render(r, c20gen.Gen(r, 1+r.Intn(4)), xt.Style{})
 	if r.Intn(4) == 0 {
 		doc = append([]byte(xt.Prolog(r)), doc...)
@@ -411,6 +412,14 @@ func (c20) Case(c *core.Ctx) {
 
 		// ---------- x2j-wrapper's own walkers ----------
 		mm := map[string]interface{}(m)
+		if !side.xml && !nested && r.Intn(4) == 0 {
+			// hand-built Map in which one sub-map object is stored in two places: the wrapper's walkers against the core's
+			mm = jv.Copy(mm).(jv.M)
+			c.Add("walkers:aliased-submaps", int64(jv.Alias(r, mm, 1+r.Intn(2), nil)))
+			wantP = sortedStrings(mxj.Map(mm).PathsForKey(key))
+			wantShort = mxj.Map(mm).PathForKeyShortest(key)
+			m = mxj.Map(mm)
+		}
 		ps := x2jw.PathsForKey(mm, key)
 		cmp("x2j-wrapper.PathsForKey", sortedStrings(ps) == wantP, core.D{"map": jv.Show(mm), "key": key, "observed": sortedStrings(ps), "expected": wantP})
 		nonEmpty("x2j-wrapper.PathsForKey", jv.Fp(mm)+key, len(ps))
